@@ -169,6 +169,14 @@ impl<VM: VMBinding, B: Region> BlockPageResource<VM, B> {
     pub fn release_block(&self, block: B) {
         let pages = 1 << Self::LOG_PAGES;
         debug_assert!(pages as usize <= self.common().accounting.get_committed_pages());
+        #[cfg(feature = "mmtk_verif")]
+        crate::verif::emit(
+            crate::verif::EV_RELEASE,
+            self.common() as *const _ as usize as u64,
+            block.start().as_usize() as u64,
+            pages as u64,
+            0,
+        );
         self.common().accounting.release(pages as _);
         self.block_queue.push(block)
     }
